@@ -11,8 +11,11 @@ SETUP = ['DECLARE i1 : INTEGER', 'DECLARE s1 : STRING', 'DECLARE r1 : REAL', 'CO
          'PROCEDURE bump(BYREF v : INTEGER)', '  v <- v + 1', 'ENDPROCEDURE', '',
          'FUNCTION twice(v : INTEGER) RETURNS INTEGER', '  RETURN v * 2', 'ENDFUNCTION', '',
          'i1 <- 5', 's1 <- "text"', 'r1 <- 2.5', 'arr[2] <- 22', 'rec.f <- 9', 'col <- green',
-         'OPENFILE "log.txt" FOR WRITE', 'WRITEFILE "log.txt", "first"']
-PROBES = ['i1', 's1', 'r1', 'K', 'arr[1]', 'arr[2]', 'rec.f', 'col', 'twice(i1)', 'CALL bump(i1)', 'i1', 'newv', 'fresh1', 'WRITEFILE "log.txt", "probe"', 'red', 'rec', '1/1/2000', "'c'", 'TRUE', '"s" & 1', '7 / 2', '6 / 2']
+         'OPENFILE "log.txt" FOR WRITE', 'WRITEFILE "log.txt", "first"',
+         'DECLARE ln : STRING', 'DECLARE rv : INTEGER', 'OPENFILE "in.txt" FOR READ', 'READFILE "in.txt", ln',
+         'OPENFILE "rnd.dat" FOR RANDOM', 'rv <- 11', 'PUTRECORD "rnd.dat", rv', 'SEEK "rnd.dat", 2', 'rv <- 22', 'PUTRECORD "rnd.dat", rv', 'SEEK "rnd.dat", 1']
+FILES = {'in.txt': b'line1\nline2\nline3\nline4\n'}
+PROBES = ['READFILE "in.txt", ln', 'ln', 'EOF("in.txt")', 'GETRECORD "rnd.dat", rv', 'rv', 'READFILE "in.txt", ln', 'ln', 'i1', 's1', 'r1', 'K', 'arr[1]', 'arr[2]', 'rec.f', 'col', 'twice(i1)', 'CALL bump(i1)', 'i1', 'newv', 'fresh1', 'WRITEFILE "log.txt", "probe"', 'red', 'rec', '1/1/2000', "'c'", 'TRUE', '"s" & 1', '7 / 2', '6 / 2']
 FAILING_SIMPLE = {
  'syntax': ['x <- ', 'OUTPUT )', 'i1 <- 1 +* 2', 'DECLARE : INTEGER', '"unterminated', "i1 <- 'ab'"],
  'undefined': ['newv <- nosuch + 1', 'i1 <- nosuch', 'OUTPUT nosuch', 'CALL nosuchproc', 'newv <- twice(nosuch)'],
@@ -20,7 +23,10 @@ FAILING_SIMPLE = {
  'redeclaration': ['DECLARE i1 : INTEGER', 'DECLARE s1 : REAL', 'CONSTANT K = 8', 'DECLARE K : INTEGER', 'TYPE Col = (a, b)', 'DECLARE fresh1 : NoSuchType'],
  'constant': ['K <- 2', 'K <- K'],
  'bounds': ['arr[99] <- 1', 'arr[0] <- 1', 'newv <- arr[4]', 'arr[1, 1] <- 2'],
- 'file': ['CLOSEFILE "nope.txt"', 'READFILE "nope.txt", newv', 'OPENFILE "missing.txt" FOR READ', 'WRITEFILE "nope.txt", 1', 'READFILE "log.txt", newv', 'OPENFILE "log.txt" FOR WRITE', 'SEEK "log.txt", 1', 'GETRECORD "log.txt", i1'],
+ 'file': ['CLOSEFILE "nope.txt"', 'READFILE "nope.txt", newv', 'OPENFILE "missing.txt" FOR READ', 'WRITEFILE "nope.txt", 1', 'READFILE "log.txt", newv', 'OPENFILE "log.txt" FOR WRITE', 'SEEK "log.txt", 1', 'GETRECORD "log.txt", i1',
+          'READFILE "in.txt", i1', 'READFILE "in.txt", K', 'READFILE "in.txt", rec', 'READFILE "in.txt", arr[9]', 'READFILE "in.txt", col',
+          'SEEK "rnd.dat", 99', 'SEEK "rnd.dat", 0', 'SEEK "rnd.dat", "x"', 'GETRECORD "rnd.dat", s1', 'GETRECORD "rnd.dat", K', 'GETRECORD "rnd.dat", nosuch', 'PUTRECORD "rnd.dat", nosuch',
+          'PUTRECORD "rnd.dat", 1 + "s"', 'WRITEFILE "in.txt", 1', 'OPENFILE "in.txt" FOR READ', 'OPENFILE "rnd.dat" FOR READ', 'READFILE "rnd.dat", ln', 'WRITEFILE "log.txt", nosuch', 'WRITEFILE "log.txt", 1 / 0'],
 }
 
 def history_case(rng, kind, failing, pos, k):
@@ -30,8 +36,8 @@ def history_case(rng, kind, failing, pos, k):
     with_f = middle[:pos % (n + 1)] + [failing] + middle[pos % (n + 1):]
     h1 = base + with_f + PROBES + ['CLOSEFILE "log.txt"']
     h0 = base + middle + PROBES + ['CLOSEFILE "log.txt"']
-    return [Case(mode='repl', stdin=gen.join(h0), meta=dict(gen='history-clean', pair='clean-mid', sample=False)),
-            Case(mode='repl', stdin=gen.join(h1), meta=dict(gen='history-failing-' + kind, pair='clean-mid', failing=failing, sample=k < 1))]
+    return [Case(mode='repl', stdin=gen.join(h0), files=dict(FILES), meta=dict(gen='history-clean', pair='clean-mid', sample=False)),
+            Case(mode='repl', stdin=gen.join(h1), files=dict(FILES), meta=dict(gen='history-failing-' + kind, pair='clean-mid', failing=failing, sample=k < 1))]
 
 def split_case(rng, k):
     pre, env = gen.prelude(rng)
@@ -53,8 +59,8 @@ def runfile_case(rng, k, ok):
     prog = b'DECLARE i1 : INTEGER\ni1 <- 999\nOUTPUT "in file ", i1\n' + (b'' if ok else rng.choice([b'OUTPUT nosuch\n', b'OUTPUT )\n', b'x <- 1 / 0\n']))
     h = SETUP + ['RUNFILE prog2.pseudo'] + PROBES + ['CLOSEFILE "log.txt"']
     h0 = SETUP + PROBES + ['CLOSEFILE "log.txt"']
-    return [Case(mode='repl', stdin=gen.join(h0), meta=dict(gen='history-clean', pair='clean-nomid', sample=False)),
-            Case(mode='repl', stdin=gen.join(h), files={'prog2.pseudo': prog}, meta=dict(gen='history-runfile-' + ('ok' if ok else 'failing'), pair='clean-nomid', failing='RUNFILE prog2.pseudo', sample=False))]
+    return [Case(mode='repl', stdin=gen.join(h0), files=dict(FILES), meta=dict(gen='history-clean', pair='clean-nomid', sample=False)),
+            Case(mode='repl', stdin=gen.join(h), files=dict(FILES, **{'prog2.pseudo': prog}), meta=dict(gen='history-runfile-' + ('ok' if ok else 'failing'), pair='clean-nomid', failing='RUNFILE prog2.pseudo', sample=False))]
 
 def generate(tier, rng):
     cases = []
@@ -86,6 +92,8 @@ def intrinsic(case, io, ia):
     base = _store.get(case.meta.get('pair'))
     if g.startswith('history-failing') or g.startswith('history-runfile'):
         if base is None: return None
+        if g.startswith('history-failing') and len(io.diags) <= len(base.diags):
+            return None      # the entry did not fail (e.g. READFILE into a name that is only an array defines a new variable): nothing to compare
         a = gen.repl_outputs(base.stdout); b = gen.repl_outputs(io.stdout)
         # locate the failing entry's chunk: histories are identical up to it
         nset = len([l for l in SETUP if True])
@@ -95,8 +103,11 @@ def intrinsic(case, io, ia):
             for x, y in zip(a[-ntail:], b[-ntail:]):
                 if x != y:
                     return 'after the failing entry %r a later entry printed %r instead of %r' % (case.meta['failing'], y[:80], x[:80])
-        if base.files.get('log.txt') != io.files.get('log.txt'):
-            return 'the open file was disturbed by the failing entry'
+        for fn in ('log.txt', 'rnd.dat', 'in.txt'):
+            if base.files.get(fn) != io.files.get(fn):
+                return 'the open file %s was disturbed by the failing entry %r' % (fn, case.meta['failing'])
+        if False:
+            return ''
     if g == 'split-repl':
         if base is None or base.budget or io.budget: return None
         if base.exit != 0: return None
